@@ -254,6 +254,38 @@ def run(run):
                        "generator's wait for the next millisecond terminates", "one writer: apply order within a shard = issue order",
                        "crash histories: membership is not asserted here (C01), ids of the surviving events are"]
     run.parallel(_dispatch, tasks)
+    if run.tier == "thorough" or os.environ.get("VERIF_MIRI"):
+        miri_layer(run)
+
+
+def miri_layer(run):
+    """Sanitizer layer: two short generator scripts (sequence wrap + wait, backward step, restart) under Miri."""
+    import tempfile
+    scripts = [[{"op": "clock", "now": 1_700_000_000_000, "every": 4200}, {"op": "gen", "calls": 4300, "tag": "burst"},
+                {"op": "clock_delta", "delta": -3, "every": 2200}, {"op": "gen", "calls": 4200, "tag": "burst_while_clock_behind"}],
+               [{"op": "clock", "now": 1_700_000_000_000, "every": 1}, {"op": "gen", "calls": 300, "tag": "monotone"}, {"op": "restart"},
+                {"op": "clock_delta", "delta": 5, "every": 3}, {"op": "gen", "calls": 300, "tag": "after_restart_ahead"}]]
+    for i, ops in enumerate(scripts):
+        with tempfile.NamedTemporaryFile("w", suffix=".json", delete=False, dir=run.scratch) as f:
+            json.dump({"shard": 5, "ops": ops}, f)
+        try:
+            pr = subprocess.run([os.path.join(os.path.dirname(VUNIT), "..", "..", "san", "miri_c18.sh"), f.name], capture_output=True, text=True, timeout=3000)
+        except subprocess.TimeoutExpired:
+            run.result.notes.append("sanitizer layer (Miri, C18 generator): timed out - not counted")
+            continue
+        if pr.returncode == 3:
+            run.result.notes.append("sanitizer layer (Miri, C18 generator): Miri cannot run here - not run: " + pr.stderr[-200:])
+            run.result.count("miri_layer_not_run")
+        elif pr.returncode == 1:
+            run.result.violation("sanitizer_report", {"tool": "miri"}, f"script {i}: {pr.stdout[-600:]}", {"ops": ops})
+        else:
+            try:
+                out = json.loads(pr.stdout.strip().splitlines()[-1])
+                run.result.count("miri_ids_generated", out["total"])
+                for v in out["violations"][:2]:
+                    run.result.violation("id_" + v["kind"], {"monitor": "direct", "family": "miri_script", "where": "within_lifetime"}, str(v), {"ops": ops})
+            except Exception:
+                run.result.notes.append("sanitizer layer (Miri): output not parsed: " + pr.stdout[-200:])
 
 
 def replay(run, path):
